@@ -30,9 +30,10 @@ type env struct {
 	ptv    map[string]*rlwe.Plaintext
 	inits  [][]*reg
 	rotKs  []int
+	stale  *rlwe.Ciphertext
 }
 
-var initNames = []string{"equal", "r1-scale-x2", "r1-rescaled", "r0-lower-level", "r1-degree2"}
+var initNames = []string{"equal", "r1-scale-x2", "r1-rescaled", "r0-lower-level", "r1-degree2", "r0-level-1", "r0-level-0"}
 
 // operand values: distinct in every slot, no symmetry (neither real nor conjugate-symmetric, no equal
 // operands), magnitudes around 1 so that products stay well inside the modulus.
@@ -132,6 +133,20 @@ func newEnv(seed uint64, cf cklib.Cfg) *env {
 		{kind: "vec-bigFloat", val: toBF(full, x.Slots), m: realOnly(full)},
 		{kind: "vec-bignumComplex", val: toBC(full, x.Slots), m: full},
 	}
+	// much shorter vectors (the tail of the encoder's buffer was written by earlier calls on the same evaluator)
+	{
+		one := full.Clone()
+		for i := 1; i < len(one); i++ {
+			one[i] = cklib.NewC(0, 0)
+		}
+		nh := (x.Slots + 1) / 2
+		hf := full.Clone()
+		for i := nh; i < len(hf); i++ {
+			hf[i] = cklib.NewC(0, 0)
+		}
+		e.vecs = append(e.vecs, vecOperand{kind: "vec-complex128-len1", val: toC128(one, 1), m: one},
+			vecOperand{kind: "vec-float64-half", val: toF64(hf, nh), m: realOnly(hf)})
+	}
 
 	// ---- plaintext operands ---------------------------------------------------------------------------------
 	e.pts = map[string]*reg{}
@@ -179,6 +194,18 @@ func newEnv(seed uint64, cf cklib.Cfg) *env {
 			v:   cklib.Map2(a.v, b.v, func(p, q cklib.C) cklib.C { return p.Mul(q) }),
 			eps: mulErr(a.v.MaxAbs(), a.eps, b.v.MaxAbs(), b.eps)}
 		e.inits = append(e.inits, []*reg{fresh(0, L, e.delta), d2, fresh(2, L, e.delta)})
+	}
+	// files six and seven: R0 near the bottom of the chain (RescaleTo / SetScale / constant scaling at every level)
+	e.inits = append(e.inits, []*reg{fresh(0, 1, e.delta), fresh(1, L, e.delta), fresh(2, L, e.delta)})
+	e.inits = append(e.inits, []*reg{fresh(0, 0, e.delta), fresh(1, 1, e.delta), fresh(2, L, e.delta)})
+
+	// the "reused" destination: a ciphertext that was used before: degree 2, top level, another scale, another
+	// LogDimensions, arbitrary content (an unrelated product)
+	{
+		st := e.inits[4][1].ct.CopyNew()
+		st.Scale = scaleOfRat(ratMul(e.delta, big.NewRat(3, 1)))
+		st.LogDimensions.Cols = (x.LogSl + 1) % (x.Params.LogMaxSlots() + 1)
+		e.stale = st
 	}
 	return e
 }
